@@ -17,7 +17,8 @@ Record field := MkField {
   f_oneof : option bytes;    (* name of the containing oneof, synthetic ones included *)
   f_optional : bool;         (* written with the optional keyword *)
   f_type : bytes;            (* full name of the message or enum type, empty for scalars *)
-  f_json : bytes
+  f_json : bytes;
+  f_packed : bool            (* repeated scalar encoded packed *)
 }.
 
 Record enum := MkEnum { e_name : bytes; e_values : list (bytes * Z) }.
@@ -35,7 +36,8 @@ Definition m_map_entry (m : message) := let (_, _, _, _, _, x) := m in x.
 
 Record method := MkMethod {
   me_name : bytes; me_input : bytes; me_output : bytes;
-  me_cstream : bool; me_sstream : bool; me_http : option http_rule
+  me_cstream : bool; me_sstream : bool; me_http : option http_rule;
+  me_idem : bytes            (* idempotency_level: IDEMPOTENCY_UNKNOWN, NO_SIDE_EFFECTS, IDEMPOTENT *)
 }.
 
 Record service := MkService { s_name : bytes; s_methods : list method }.
@@ -45,11 +47,28 @@ Record file := MkFile {
   fd_messages : list message; fd_enums : list enum; fd_services : list service
 }.
 
+(* A method of the client type of _grpc.pb.go: name, type of the parameter in, first result
+   type, and the FullMethodName constant(s) its body passes on (space separated). *)
+Record client_method := MkClientMethod { cm_name : bytes; cm_in : bytes; cm_out : bytes; cm_const : bytes }.
+
+(* A _Service_Method_Handler function: the type it decodes into (new T), the methods of the
+   server interface it calls, the FullMethodName constants it mentions. *)
+Record handler_func := MkHandlerFunc { hf_name : bytes; hf_new : bytes; hf_calls : list bytes; hf_consts : list bytes }.
+
 (* What the _grpc.pb.go file says: the ServiceDesc value, the FullMethodName constants
-   (constant name, value) and the exported methods of the client and server interfaces. *)
+   (constant name, value), the exported methods of the client and server interfaces, the
+   client methods, the (method, handler) pairs of the ServiceDesc literal and the handlers. *)
 Record grpc_desc := MkGrpc {
   g_service : bytes; g_methods : list bytes; g_streams : list (bytes * bool * bool) (* name, server, client *);
-  g_metadata : bytes; g_full_names : list (bytes * bytes); g_client_iface : list bytes; g_server_iface : list bytes
+  g_metadata : bytes; g_full_names : list (bytes * bytes); g_client_iface : list bytes; g_server_iface : list bytes;
+  g_client : list client_method; g_bindings : list (bytes * bytes); g_handlers : list handler_func
+}.
+
+(* A struct field of api.pb.go carrying protobuf tags: Go name, type expression (package
+   qualifiers replaced by import paths), and the protobuf, json, protobuf_oneof,
+   protobuf_key, protobuf_val struct tags. *)
+Record go_field := MkGoField {
+  gf_name : bytes; gf_type : bytes; gf_tag : bytes; gf_json : bytes; gf_oneof : bytes; gf_key : bytes; gf_val : bytes
 }.
 
 (* ------------------------------------------------------------------ boolean equalities *)
@@ -83,7 +102,8 @@ Definition http_eqb (a b : http_rule) : bool :=
 Definition field_eqb (a b : field) : bool :=
   bytes_eqb (f_name a) (f_name b) && Z.eqb (f_number a) (f_number b) && bytes_eqb (f_kind a) (f_kind b) &&
   N.eqb (f_card a) (f_card b) && option_eqb bytes_eqb (f_oneof a) (f_oneof b) &&
-  Bool.eqb (f_optional a) (f_optional b) && bytes_eqb (f_type a) (f_type b) && bytes_eqb (f_json a) (f_json b).
+  Bool.eqb (f_optional a) (f_optional b) && bytes_eqb (f_type a) (f_type b) && bytes_eqb (f_json a) (f_json b) &&
+  Bool.eqb (f_packed a) (f_packed b).
 
 Definition value_eqb : (bytes * Z) -> (bytes * Z) -> bool := pair_eqb bytes_eqb Z.eqb.
 
@@ -100,7 +120,8 @@ Fixpoint message_eqb (m m' : message) {struct m} : bool :=
 Definition method_eqb (a b : method) : bool :=
   bytes_eqb (me_name a) (me_name b) && bytes_eqb (me_input a) (me_input b) &&
   bytes_eqb (me_output a) (me_output b) && Bool.eqb (me_cstream a) (me_cstream b) &&
-  Bool.eqb (me_sstream a) (me_sstream b) && option_eqb http_eqb (me_http a) (me_http b).
+  Bool.eqb (me_sstream a) (me_sstream b) && option_eqb http_eqb (me_http a) (me_http b) &&
+  bytes_eqb (me_idem a) (me_idem b).
 
 Definition service_eqb (a b : service) : bool :=
   bytes_eqb (s_name a) (s_name b) && list_eqb method_eqb (s_methods a) (s_methods b).
@@ -149,14 +170,37 @@ Section Versions.
   (* The image of a v3 declaration in the other version: identical except that type names
      move to the other package and HTTP paths to the other version prefix. *)
   Definition ren_field (f : field) : field :=
-    MkField (f_name f) (f_number f) (f_kind f) (f_card f) (f_oneof f) (f_optional f) (ren_type (f_type f)) (f_json f).
+    MkField (f_name f) (f_number f) (f_kind f) (f_card f) (f_oneof f) (f_optional f) (ren_type (f_type f)) (f_json f)
+            (f_packed f).
   Definition ren_binding (b : binding) : binding :=
     MkBinding (b_verb b) (ren_path (b_path b)) (b_body b) (b_resp b).
-  Definition ren_http (h : http_rule) : http_rule :=
-    MkHttp (ren_binding (h_main h)) (map ren_binding (h_extra h)).
-  Definition ren_method (me : method) : method :=
-    MkMethod (me_name me) (ren_type (me_input me)) (ren_type (me_output me)) (me_cstream me) (me_sstream me)
-             (option_map ren_http (me_http me)).
+
+  (* All the bindings of a rule: the pattern itself and the additional ones. *)
+  Definition bindings (h : http_rule) : list binding := h_main h :: h_extra h.
+
+  (* A method of the other version serves a method of this one: same name, request and
+     response type (moved to the other package), streaming flags and idempotency level; and
+     every HTTP binding of this one (moved to the other version prefix) is among its
+     bindings.  Additional bindings that only the other version has are allowed. *)
+  Definition method_incl (me me' : method) : Prop :=
+    me_name me' = me_name me /\ me_input me' = ren_type (me_input me) /\ me_output me' = ren_type (me_output me) /\
+    me_cstream me' = me_cstream me /\ me_sstream me' = me_sstream me /\ me_idem me' = me_idem me /\
+    match me_http me with
+    | None => True
+    | Some h => exists h', me_http me' = Some h' /\ forall bd, In bd (bindings h) -> In (ren_binding bd) (bindings h')
+    end.
+
+  Definition method_sub (me me' : method) : bool :=
+    bytes_eqb (me_name me') (me_name me) && bytes_eqb (me_input me') (ren_type (me_input me)) &&
+    bytes_eqb (me_output me') (ren_type (me_output me)) && Bool.eqb (me_cstream me') (me_cstream me) &&
+    Bool.eqb (me_sstream me') (me_sstream me) && bytes_eqb (me_idem me') (me_idem me) &&
+    match me_http me with
+    | None => true
+    | Some h => match me_http me' with
+                | None => false
+                | Some h' => forallb (fun bd => existsb (binding_eqb (ren_binding bd)) (bindings h')) (bindings h)
+                end
+    end.
 
   (* -------- the propositions: b contains everything a declares *)
 
@@ -172,7 +216,7 @@ Section Versions.
       msg_incl (Msg name fs os ns es me) (Msg name fs' os' ns' es' me).
 
   Definition svc_incl (s s' : service) : Prop :=
-    s_name s' = s_name s /\ forall me, In me (s_methods s) -> In (ren_method me) (s_methods s').
+    s_name s' = s_name s /\ forall me, In me (s_methods s) -> exists me', In me' (s_methods s') /\ method_incl me me'.
 
   Definition file_incl (a b : file) : Prop :=
     fd_syntax b = fd_syntax a /\
@@ -198,7 +242,7 @@ Section Versions.
 
   Definition svc_sub (s s' : service) : bool :=
     bytes_eqb (s_name s') (s_name s) &&
-    forallb (fun me => existsb (method_eqb (ren_method me)) (s_methods s')) (s_methods s).
+    forallb (fun me => existsb (method_sub me) (s_methods s')) (s_methods s).
 
   Definition file_sub (a b : file) : bool :=
     bytes_eqb (fd_syntax b) (fd_syntax a) &&
@@ -280,3 +324,11 @@ Definition system_ok (f : file) (rs : list (bytes * option Z)) : bool :=
     existsb (fun e => bytes_eqb (e_name e) name_System &&
       existsb (fun az => bytes_eqb (fst az) (api_system_name (fst nv)) &&
                          option_eqb Z.eqb (snd nv) (Some (snd az))) (e_values e)) (fd_enums f)) rs.
+
+(* The values the compiled package gives its constants (int(resolve.X), printed by
+   cmd/resolvesys) are the ones read from the source. *)
+Definition runtime_spec (rs : list (bytes * option Z)) (rt : list (bytes * Z)) : Prop :=
+  forall n v, In (n, v) rt -> In (n, Some v) rs.
+
+Definition runtime_ok (rs : list (bytes * option Z)) (rt : list (bytes * Z)) : bool :=
+  forallb (fun nv => existsb (pair_eqb bytes_eqb (option_eqb Z.eqb) (fst nv, Some (snd nv))) rs) rt.
